@@ -1,0 +1,35 @@
+package streams
+
+import (
+	"io"
+	"net"
+)
+
+// DrainedConnection makes sure that everything the peer wrote before it closed a multiplexed stream is read.
+//
+// The stream multiplexer (xtaci/smux v1.5.14) wakes a blocked reader on "data arrived" and on "peer closed"
+// alike. When the peer writes and closes straight away both events are pending at once, and the reader may be
+// told end-of-stream although the data is still sitting in the stream's buffer: the tail of a transfer is lost.
+// Reading once more returns that data; only a second end-of-stream in a row is the real one.
+type DrainedConnection struct {
+	net.Conn
+}
+
+func NewDrainedConnection(wrapped net.Conn) *DrainedConnection {
+	return &DrainedConnection{
+		Conn: wrapped,
+	}
+}
+
+func (dc *DrainedConnection) Read(p []byte) (n int, err error) {
+	n, err = dc.Conn.Read(p)
+	if n == 0 && err == io.EOF && len(p) > 0 {
+		n, err = dc.Conn.Read(p)
+	}
+	return
+}
+
+// Unwrap returns the embedded net.Conn
+func (dc *DrainedConnection) Unwrap() net.Conn {
+	return dc.Conn
+}
